@@ -13,14 +13,23 @@ EXTRA = []
 
 
 def run(res):
-    core.std_proof_coverage(res, "C14")
+    from .c10 import run_static, ATOM_OBLIGATIONS
+    core.std_proof_coverage(res, "C14", extra_obligations=len(ATOM_OBLIGATIONS))
+    # "after the dialer or its socket is closed no new connection attempt is started", with Close running between NewDialer's
+    # closed-check and the registration of the dialer (any interleaving): the static check-then-register obligation (see C10)
+    run_static(res, "C14")
+    cov0 = dict(res.coverage)
     l1.run(res, "C14", "core", "Model.Core Model.CoreOracle", "", "", ORACLES + EXTRA,
            "the socket core behaves differently from the model (Model/Core.v): hook events, protocol notifications, transport closes, dial attempts, "
            "return values, ids in use or pipes listed",
            gocmd="l2core", prelude="Definition step_rec := kstep_rec.\n",
            check_fn="(fun h => kcheck_from %s %s kinit 0 h)" % (IDFIX, DIALFIX),
            ambig_fn="(fun h => kambiguous_from %s %s kinit 0 h)" % (IDFIX, DIALFIX))
+    for k in ("discharged", "theorems", "generated_obligations", "register_after_check_rules"):
+        if k in cov0:
+            res.coverage[k] = cov0[k]
     res.coverage["trusted_base"] = core.COQ_TRUSTED + [
+        "translator harness/cmd/go2race for the check-then-register obligation (as in C10)",
         "hand-written model Model/Core.v tied by correspondence at quiescence granularity against the real core.socket/dialer/listener/pipe over a virtual transport "
         "(harness/vt, registered through the public transport.RegisterTransport) and a recording mock protocol (harness/mproto)",
         "verif hooks internal/core/verif_hooks.go + protocol/verif_hooks.go (read-only: pipe ids in use, pipes listed)",
